@@ -56,6 +56,17 @@ Theorem C18_profile_perm_invariant : forall sh1 sh2 t found bl al,
 Proof. exact profile_perm_invariant. Qed.
 Print Assumptions C18_profile_perm_invariant.
 
+(** the list flags -b / -allow: the names of the occurrences accumulate in order; an occurrence that names nothing
+    (empty, blank, separators only - `-b "$EXTRA"` with EXTRA unset) adds nothing and takes nothing away, wherever it
+    stands among the others *)
+Theorem C18_flag_occurrences_accumulate : forall a b, flag_values (a ++ b) = flag_values a ++ flag_values b.
+Proof. exact flag_values_app. Qed.
+Print Assumptions C18_flag_occurrences_accumulate.
+Theorem C18_nameless_occurrence_is_neutral : forall a v b,
+  (forall c, In c (list_ascii_of_string v) -> is_sep c = true) -> flag_values (a ++ v :: b) = flag_values (a ++ b).
+Proof. intros a v b H. apply flag_values_nameless. exact (fields_aux_seps v H). Qed.
+Print Assumptions C18_nameless_occurrence_is_neutral.
+
 (** The policy {default errno, one allow group with the names}, compiled: every event of the policy's architecture
     gets ALLOW if its number is the number of a listed name, and ERRNO|EPERM otherwise. *)
 Theorem C18_profile_decides : forall le k allow ai names0 p ev,
